@@ -516,4 +516,4 @@ def setup():
     return 0 if bad == 0 else 2
 
 
-HARNESS_PKGS = ["h_core"]
+HARNESS_PKGS = ["h_core", "h_schema"]
